@@ -101,6 +101,16 @@ Definition exc_summ (all : bool) (su : summ) (H : list summ) : list summ :=
   | _ => [su]
   end.
 
+(* duplicate path summaries are dropped at every composition step (otherwise a run of n optional calls has
+   2^n identical normal summaries); membership, which is all soundness needs, is unchanged *)
+Definition summ_eq_dec (a b : summ) : {a = b} + {a <> b}.
+Proof.
+  repeat decide equality; try apply N.eq_dec; try apply Nat.eq_dec.
+Defined.
+Definition dd (l : list summ) : list summ := nodup summ_eq_dec l.
+Lemma dd_In su l : In su l -> In su (dd l).
+Proof. intros H. apply nodup_In. exact H. Qed.
+
 Fixpoint analyse (st : stmt) : option (list summ) :=
   match st with
   | Skip => Some [(KN, eid, [])]
@@ -112,17 +122,17 @@ Fixpoint analyse (st : stmt) : option (list summ) :=
   | Raise => Some [(KExc, eid, [])]
   | Seq a b =>
       match analyse a, analyse b with
-      | Some A, Some B => Some (flat_map (fun su => seq_summ su B) A)
+      | Some A, Some B => Some (dd (flat_map (fun su => seq_summ su B) A))
       | _, _ => None end
   | TryFinally a b =>
       match analyse a, analyse b with
-      | Some A, Some B => Some (flat_map (fun su => fin_summ su B) A)
+      | Some A, Some B => Some (dd (flat_map (fun su => fin_summ su B) A))
       | _, _ => None end
   | TryExcept all a h =>
       match analyse a, analyse h with
-      | Some A, Some H => Some (flat_map (fun su => exc_summ all su H) A)
+      | Some A, Some H => Some (dd (flat_map (fun su => exc_summ all su H) A))
       | _, _ => None end
-  | If a b => match analyse a, analyse b with Some A, Some B => Some (A ++ B) | _, _ => None end
+  | If a b => match analyse a, analyse b with Some A, Some B => Some (dd (A ++ B)) | _, _ => None end
   | Loop a =>
       match analyse a with
       | Some A => if forallb loop_ok A then Some ((KN, eid, []) :: filter not_normal A) else None
@@ -200,7 +210,7 @@ Proof.
     assert (k1 = KN) by (simpl in C1; congruence). subst k1.
     assert (k2 = k) by (simpl in C2; congruence). subst k2.
     exists (k, comp e1 e2, tr1 ++ map (shift e1) tr2). split.
-    + apply in_flat_map. exists (KN, e1, tr1). split; [exact I1|]. simpl.
+    + apply dd_In. apply in_flat_map. exists (KN, e1, tr1). split; [exact I1|]. simpl.
       apply in_map_iff. exists (k, e2, tr2). split; [reflexivity|exact I2].
     + eapply conc_comp; eassumption.
   - (* SeqX *)
@@ -209,7 +219,7 @@ Proof.
     destruct (IHexec A eq_refl) as [[[k1 e1] tr1] [I1 C1]].
     assert (k1 = k) by (simpl in C1; congruence). subst k1.
     exists (k, e1, tr1). split; [|exact C1].
-    apply in_flat_map. exists (k, e1, tr1). split; [exact I1|].
+    apply dd_In. apply in_flat_map. exists (k, e1, tr1). split; [exact I1|].
     destruct k; [congruence| |]; simpl; auto.
   - (* Fin *)
     destruct (analyse a) as [A|]; [|discriminate]. destruct (analyse b) as [B|]; [|discriminate].
@@ -219,7 +229,7 @@ Proof.
     assert (k1 = k) by (simpl in C1; congruence). subst k1.
     assert (k2' = k2) by (simpl in C2; congruence). subst k2'.
     exists (fin_kind k k2, comp e1 e2, tr1 ++ map (shift e1) tr2). split.
-    + apply in_flat_map. exists (k, e1, tr1). split; [exact I1|]. simpl.
+    + apply dd_In. apply in_flat_map. exists (k, e1, tr1). split; [exact I1|]. simpl.
       apply in_map_iff. exists (k2, e2, tr2). split; [reflexivity|exact I2].
     + simpl in C1, C2. injection C1 as <- <-. injection C2 as <- <-.
       simpl. rewrite comp_ok, map_app, <- conc_shift. reflexivity.
@@ -231,7 +241,7 @@ Proof.
     assert (k1 = KExc) by (simpl in C1; congruence). subst k1.
     assert (k2 = k) by (simpl in C2; congruence). subst k2.
     exists (k, comp e1 e2, tr1 ++ map (shift e1) tr2). split.
-    + apply in_flat_map. exists (KExc, e1, tr1). split; [exact I1|]. simpl.
+    + apply dd_In. apply in_flat_map. exists (KExc, e1, tr1). split; [exact I1|]. simpl.
       apply in_or_app. right.
       apply in_map_iff. exists (k, e2, tr2). split; [reflexivity|exact I2].
     + eapply conc_comp; eassumption.
@@ -241,7 +251,7 @@ Proof.
     destruct (IHexec A eq_refl) as [[[k1 e1] tr1] [I1 C1]].
     assert (k1 = k) by (simpl in C1; congruence). subst k1.
     exists (k, e1, tr1). split; [|exact C1].
-    apply in_flat_map. exists (k, e1, tr1). split; [exact I1|].
+    apply dd_In. apply in_flat_map. exists (k, e1, tr1). split; [exact I1|].
     destruct k; [| |congruence]; simpl; auto.
   - (* ExcEsc *)
     destruct (analyse a) as [A|]; [|discriminate]. destruct (analyse h) as [Hh|]; [|discriminate].
@@ -249,15 +259,15 @@ Proof.
     destruct (IHexec A eq_refl) as [[[k1 e1] tr1] [I1 C1]].
     assert (k1 = KExc) by (simpl in C1; congruence). subst k1.
     exists (KExc, e1, tr1). split; [|exact C1].
-    apply in_flat_map. exists (KExc, e1, tr1). split; [exact I1|]. simpl. left. reflexivity.
+    apply dd_In. apply in_flat_map. exists (KExc, e1, tr1). split; [exact I1|]. simpl. left. reflexivity.
   - (* IfL *)
     destruct (analyse a) as [A|]; [|discriminate]. destruct (analyse b) as [B|]; [|discriminate].
     injection HL as <-. destruct (IHexec A eq_refl) as [su [I C]].
-    exists su. split; [apply in_or_app; auto|exact C].
+    exists su. split; [apply dd_In; apply in_or_app; auto|exact C].
   - (* IfR *)
     destruct (analyse a) as [A|]; [|discriminate]. destruct (analyse b) as [B|]; [|discriminate].
     injection HL as <-. destruct (IHexec B eq_refl) as [su [I C]].
-    exists su. split; [apply in_or_app; auto|exact C].
+    exists su. split; [apply dd_In; apply in_or_app; auto|exact C].
   - (* Loop0 *)
     destruct (analyse a) as [A|]; [|discriminate].
     destruct (forallb loop_ok A); [|discriminate]. injection HL as <-.
